@@ -111,6 +111,9 @@ LEAVES = [
     # regular expressions are shown as re.compile(r'...'); one-element tuple subscripts; overflowing complex literals
     "re.compile('x', **kw)", 're.compile("it\'s")', "re.compile('(?i)x')", "re.compile('x', re.I)", "re.compile(pat)", "re.compile('a\\\\d+')", "re.compile(b'x')", "re.compile('x', flags=re.X | re.I)",
     "re.compile(r'''a'b\"c''')", 'table[1,]', 'a[(1, 2),]', 'a[()]', '1e999j', '-1e999', 'a[1,][0]',
+    # values that only fit on one line by being cut (shown through the source-code fallback, with a line break inside a string)
+    "f'a\\n{b}'", "f'name{SEP}value\\n{SEP}\\n'", "'x\\ny' if a else b", "lambda: 'a\\nb'", "a < 'x\\ny'", "[c for c in 'a\\nb']", "[f'{SEP}\\n{SEP}', 1]",
+    "lambda: 'a long string with newline\\n and more text following here'", "a == 'a long string with newline\\n and more text following here'", "f'{a}\\n' + 'b\\nc'", "(f'x\\n{y}', 2)", "g(f'x\\n{y}')",
     '-(1)', '- 1', '--1', '-(-1)', 'not not a', '~-1', '(-1)**2', '-1**2', '2**-1', '(1+2j).real', '1 .real', '1.5.real', "''.join", '[1][0]', '(1, 2)[0]', '{1: 2}[1]',
 ]
 
@@ -172,10 +175,17 @@ def norm(e: ast.AST) -> str:
     return ast.dump(_ReNorm().visit(_SetNorm().visit(ast.parse(ast.unparse(e), mode='eval').body)))
 
 
+_MARKED = [False]
+
+
 def shown(e: ast.expr) -> str:
     from pydoctor.epydoc.markup._pyval_repr import colorize_inline_pyval
     from pydoctor import node2stan
-    return ''.join(node2stan.gettext(colorize_inline_pyval(e).to_node()))
+    from docutils import nodes
+    doc = colorize_inline_pyval(e).to_node()
+    # the visible mark of a cut value: an inline of class variable-ellipsis (or variable-linewrap) in the rendered tree
+    _MARKED[0] = any('variable-ellipsis' in n.get('classes', []) for n in doc.findall(nodes.inline))
+    return ''.join(node2stan.gettext(doc))
 
 
 def tname(n: ast.AST) -> str:
@@ -202,11 +212,16 @@ def verdict(e: ast.expr) -> Optional[Tuple[str, str]]:
         t = shown(e)
     except Exception as ex:  # noqa
         return (f'raises:{type(ex).__name__}', '')
+    marked = _MARKED[0]
     try:
         back = ast.parse(t.strip(), mode='eval').body
     except (SyntaxError, ValueError):
+        if marked and t.rstrip().endswith('...'):
+            return None         # cut (a one-line display of a value that needs several lines) and visibly marked as cut: the statement's own escape
         return ('unparsable', t)
     if norm(back) != norm(e):
+        if marked and t.rstrip().endswith('...'):
+            return None
         return ('meaning', t)
     return None
 
